@@ -883,6 +883,54 @@ func boundedRecursion(c *an.Ctx, fns []*ssa.Function, scope map[*ssa.Function][]
 					}
 				}
 			}
+			// (1') the same guard, decided on traces: the membership test and the mark may sit in methods of a
+			// set type or in a resolver that returns a verdict (visited.go)
+			if !ed.guarded {
+				onCycle := map[*ssa.Function]bool{}
+				for g := range back {
+					if !inScope[g] {
+						continue
+					}
+					if r2 := p.Reach([]*ssa.Function{g}, func(x an.CallEdge) bool { return inScope[x.Callee] }); r2[fn] != nil || g == fn {
+						onCycle[g] = true
+					}
+				}
+				onCycle[fn], onCycle[e.Callee] = true, true
+				vt := &visitedTracer{p: p, onCycle: onCycle, sites: map[ssa.Instruction]bool{}, reads: map[ssa.Instruction]bool{}, seedURL: -1}
+				for g := range onCycle {
+					if g.Blocks == nil {
+						continue
+					}
+					an.EachInstr(g, func(in ssa.Instruction) {
+						if ci, ok := in.(ssa.CallInstruction); ok {
+							for _, callee := range p.Callees(ci.Common()) {
+								if onCycle[callee] {
+									vt.sites[in] = true
+								}
+							}
+						}
+					})
+				}
+				if touchesSetUnder(p, fn, onCycle) {
+					vt.setHelpers(fn.Pkg)
+					if ai, sp, ok, _ := vt.guardedOn(fn, e.Site.(ssa.Instruction)); ok {
+						pi := ai
+						if e.Site.Common().IsInvoke() {
+							pi = ai + 1
+						}
+						marked := false
+						if pi < len(e.Callee.Params) {
+							marked, _ = vt.marksBefore(e.Callee, e.Callee.Params[pi], sp)
+						}
+						if !marked {
+							marked = vt.callerMarksBefore(fn, e.Site.(ssa.Instruction), ai, sp)
+						}
+						if marked {
+							ed.guarded, ed.why = true, "on every path the call is preceded by a negative membership test of the visited set on the key passed on, which is marked before the recursion goes on"
+						}
+					}
+				}
+			}
 			// (2) the callee refuses a revisit at its entry and marks before recursing
 			if !ed.guarded && e.Caller == e.Callee {
 				callee := e.Callee
@@ -1038,6 +1086,19 @@ func boxesOnly(v ssa.Value, t types.Type, depth int) bool {
 	}
 	if types.Identical(v.Type(), t) {
 		return true
+	}
+	return false
+}
+
+// touchesSetUnder reports whether fn, or a function of its package it calls
+// off the cycle, tests or fills a set (cheap pre-check before tracing).
+func touchesSetUnder(p *an.Prog, fn *ssa.Function, onCycle map[*ssa.Function]bool) bool {
+	for g := range p.Reach([]*ssa.Function{fn}, func(e an.CallEdge) bool {
+		return e.Kind == an.EdgeCall && an.Outer(e.Callee).Pkg == fn.Pkg && !onCycle[e.Callee]
+	}) {
+		if g.Blocks != nil && touchesSet(g) {
+			return true
+		}
 	}
 	return false
 }
